@@ -257,3 +257,20 @@ VARIANTS += [
     dict(prop="C12", name="oprf-sensitivity-ge", expect="GUARD-params|OPRFPaddingDp::new:sensitivity",
          edits=[dict(file="ipa-core/src/protocol/ipa_prf/oprf_padding/insecure.rs", find="        if new_sensitivity > 1_000_000 {", replace="        if new_sensitivity > 10_000_000 {")]),
 ]
+
+DVF = "ipa-core/src/protocol/context/dzkp_validator.rs"
+VARIANTS += [
+    # ---------------- C03 ----------------
+    dict(prop="C03", name="prod-target-60m", expect="CONST-capacity|recursion-depth-fits-target",
+         edits=[dict(file=DVF, find="pub const TARGET_PROOF_SIZE: usize = 50_000_000;", replace="pub const TARGET_PROOF_SIZE: usize = 60_000_000;")]),
+    dict(prop="C03", name="prss-records-plus-one", expect="CONST-sizing|prss-records-per-batch",
+         edits=[dict(file=DVF, find="            + 2; // P and Q masks", replace="            + 1; // P and Q masks")]),
+    dict(prop="C03", name="tables-swapped", expect="WIRE-tables|verifier",
+         edits=[dict(file=DVF, find="                    input: self.get_field_values_from_right_prover(),\n                    table: &TABLE_U,", replace="                    input: self.get_field_values_from_right_prover(),\n                    table: &TABLE_V,")]),
+    dict(prop="C03", name="challenge-mod-prime", expect="RANGE-challenge|shape",
+         edits=[dict(file="ipa-core/src/helpers/hashing.rs", find="    F::truncate_from(val % (prime - exclude_to) + exclude_to)", replace="    F::truncate_from(val % prime + exclude_to)")]),
+    dict(prop="C03", name="verify-inverted", expect="GUARD-dzkp",
+         edits=[dict(file="ipa-core/src/protocol/ipa_prf/validation_protocol/validation.rs", find="        if diff.ct_ne(&vec![Fp61BitPrime::ZERO; length]).into() {", replace="        if diff.ct_eq(&vec![Fp61BitPrime::ZERO; length]).into() {")]),
+    dict(prop="C03", name="round-up-batch", expect="CONST-capacity|round-down@protocol::hybrid::agg",
+         edits=[dict(file="ipa-core/src/protocol/hybrid/agg.rs", find="        non_zero_prev_power_of_two(TARGET_PROOF_SIZE / (BK::BITS as usize + V::BITS as usize));", replace="        (TARGET_PROOF_SIZE / (BK::BITS as usize + V::BITS as usize)).next_power_of_two();")]),
+]
